@@ -587,8 +587,13 @@ class Future:
 class ThreadPoolExecutor:
   """Executor whose workers are managed threads; honours max_workers."""
 
-  def __init__(self, max_workers=None, thread_name_prefix='pool', **_):
+  def __init__(self, max_workers=None, thread_name_prefix='pool', per_task_threads=False, **_):
     self._max = max_workers or 32
+    self._max_workers = self._max       # same private name as concurrent.futures.ThreadPoolExecutor
+    # per_task_threads: the k-th submitted task runs on its own managed thread named after k and first waits
+    # for one of the max_workers slots (any waiting task may get a free slot: a superset of FIFO hand-out)
+    self._per_task = per_task_threads
+    self._running = 0
     self._prefix = (thread_name_prefix or 'pool').replace(' ', '_').replace('"', '').replace(':', '')
     self._tasks: collections.deque = collections.deque()
     self._workers: list[_MThread] = []
@@ -624,6 +629,16 @@ class ThreadPoolExecutor:
     s = _ACTIVE[0]
     fut = Future()
     task = (fut, fn, args, kwargs)
+    if self._per_task:
+      def run(t=task):
+        s.yield_op(('pred', lambda: self._running < self._max, f'pool-slot:{self.name}'))
+        self._running += 1
+        try:
+          self._worker(t)
+        finally:
+          self._running -= 1
+      self._workers.append(s.spawn(self._wname(len(self._workers) + 1), run))
+      return fut
     live = [w for w in self._workers if not w.finished]
     if len(live) < self._max:
       # the new worker is bound to this task (worker k runs the k-th submitted task first)
